@@ -239,3 +239,15 @@ Example conditional_outside :
   stmt_of_equation (row_of ["Y"; "X"]) "Y = 1 if 0 < X < 2 else 0" = None /\
   stmt_of_equation (row_of ["Y"; "X"]) "Y = 2*(1 if X > 0 else 0)" = None.
 Proof. vm_compute. repeat split; reflexivity. Qed.
+
+(* NEW: a {parameter} / <error> term written directly after a keyword (no blank): the rendering `self._X[t]` starts with a
+   word character, the script text `{X}` does not — in the generated code keyword and term fuse into ONE identifier
+   (`notself`), which compiles and raises NameError when evaluated.  The text is what the rule says; the statement is
+   outside the subset (a CBad token marks the fusion) *)
+Example keyword_fused_with_term_refuted :
+  exists eq syms, parse_equation_M eq = POk syms /\ text_guard eq = true /\
+    code_text eq = Some "self._Y[t] = 1 if notself._X[t] > 0 else 2" /\
+    stmt_of_equation (row_of ["Y"; "X"]) eq = None /\
+    stmt_of_equation (row_of ["Y"; "X"]) "Y = 1 if not {X} > 0 else 2"
+    = Some ("Y", SAssign 0 0%Z (EIf CGt (ERead 1 0%Z) (ENum "0") (ENum "2") (ENum "1"))).
+Proof. exists "Y = 1 if not{X} > 0 else 2". eexists. split; [vm_compute; reflexivity|]. repeat split; vm_compute; reflexivity. Qed.
